@@ -96,6 +96,46 @@ BUILT = {
          "correspondence: IntegrateQuery vs Lean maskedEval vs brute force vs compiled integrate()",
          "Theorems for every smooth decomposable tree and mask; correspondence with per-sample masks in 3 forms, batch "
          "sizes {1,2,F,F+1,5}, all flags, probs/logits/binomial/Gaussian inputs.", "DESIGN.md 4/C11"),
+ "C12": ("Lean 4 proof (a circuit whose sum weights have unit row sums over normalised inputs integrates to 1 and "
+         "its marginals are the integrals of the joint; non-negativity / positivity of monotone circuits; softmax, "
+         "mixing-weight and sigmoid parameterisations have the row sums / ranges the theorem needs) + correspondence: "
+         "every template and parameterisation of the library compiled and integrated (symbolic integrate or "
+         "IntegrateQuery), after initialisation, after optimiser steps and after reset",
+         "Theorems for every smooth decomposable tree; correspondence over region-graph templates x sum-product "
+         "layers x input layers x flags, marginal consistency by enumeration.", "DESIGN.md 4/C12"),
+ "C13": ("Lean 4 proof (evaluation over dual numbers a + b eps computes value and derivative of every polynomial "
+         "circuit: the reference derivative; gradients are a function of the denoted function only, hence "
+         "flag-independent given C01/C02; the safe logarithm's backward equals 1/x away from 0; max-shifted "
+         "log-sum-exp has the derivative of the plain one wherever the sum is positive) + correspondence: autograd "
+         "gradients pulled back through the registry vs the Lean dual-number evaluator / finite differences of the "
+         "Lean evaluator, under all four flag combinations",
+         "Theorems full; autograd itself is runtime (trusted, exercised). D27 (contributions through exactly-zero "
+         "units are dropped in log space) is a recorded known finding.", "DESIGN.md 4/C13"),
+ "C15": ("Lean 4 proof (the top-down sampling law of a normalised monotone circuit is its evaluation: per-layer "
+         "equations for sum / Hadamard / Kronecker layers, every sample has positive probability, the law is a "
+         "distribution) + correspondence: instrumented SamplingQuery — every layer step checked deterministically "
+         "against those equations on the recorded mixture choices, column frequencies vs weights, joint frequencies "
+         "vs exact probabilities of the Lean evaluator",
+         "Layer equations and the law proved for every tree; the equality of the library's bottom-up batched "
+         "propagation with the top-down law is carried by the per-layer deterministic checks (not mechanised); "
+         "frequencies are statistical (6 sigma, fixed seeds). D15 (scopes with gaps) is a recorded known finding.",
+         "DESIGN.md 4/C15"),
+ "C16": ("Lean 4 proof (region-graph validity implies partitions of pairwise disjoint parts that cover the parent, "
+         "for any number of parts; dump/load is the identity; structured decomposability is a property of scopes, "
+         "invariant under permutation of partition inputs) + correspondence: every region-graph algorithm of the "
+         "library vs the model's validity / structured-decomposability / omni-compatibility predicates, dump-load "
+         "round trips, and the circuits built from them (smooth, decomposable, scopes, units, outputs)",
+         "Theorems full for the region-graph model; build_circuit soundness is not a theorem: it is checked on every "
+         "generated graph through the structural predicates proved in C08. D19 is a recorded known finding.",
+         "DESIGN.md 4/C16"),
+ "C20": ("Lean 4 proof (model template builders cpNode / tuckerNode / ttNode / hmmNode / ffNode mirroring the layer "
+         "structure the library builds evaluate to the documented contractions: CP and Tucker for every number of "
+         "modes and rank, tensor train for every chain length as matrix chain and as sum over all rank tuples, HMM for "
+         "every ordering as backward recursion and as sum over hidden paths with emission number ordering[i] at step i, "
+         "fully factorised) + correspondence: real templates vs the model builders fed with the extracted factors vs "
+         "the documented formula recomputed in Python vs the compiled circuit; logic circuits vs truth tables and model counts",
+         "Theorems full (tucker_formula_partial superseded by tucker_formula). Logic circuits: determinism is a "
+         "hypothesis, carried by the correspondence only. D21/D23 are recorded known findings.", "DESIGN.md 4/C20"),
 }
 checks, na = [], []
 for p in props:
@@ -117,7 +157,7 @@ for p in props:
         na.append({"property_id": pid, "reason": "check not built yet in this round (model and theorems planned in DESIGN.md section 4); not claimed until its check exists"})
 m = {
  "version": 1,
- "setup_cmd": "cd lean && lake build CirkitModel driver",
+ "setup_cmd": "cd lean && lake build CirkitModel driver CirkitModel.All",
  "hooks": {"guard": "CIRKIT_VERIF", "enable": "no hooks are needed: checks import /repo in-process and observe through public API and harness-side spies",
            "baseline_off_cmd": "cd /repo && /venv/bin/python -m pytest -q -p no:cacheprovider --timeout=900",
            "source_commits": [], "add_only": True},
